@@ -207,7 +207,9 @@ def plan(rng, tier):
     dcfg["ext"] = rng.random() < 0.15
     if rng.random() < 0.15:
         # the stored object is an instance of a trivial user subclass
-        dcfg["sub"] = True
+        # (half of the trees: one that also names a leaf class of its own)
+        dcfg["sub"] = "leaf" if (is_tree(kind) and
+                                 rng.random() < 0.5) else True
     cfg = {"dom": dcfg, "kind": kind, "impl": rng.choice(["c", "py"]),
            "where": where, "protocol": rng.choice([2, 3, 3, 4, 5])}
     if where == "single":
@@ -304,7 +306,9 @@ def _outcome_of(fn):
 def _check_rec(rec, dom, cfg, ctx):
     name = rec.get("cls")
     if name is not None and rec.get("mod") == "sim.subcls":
-        name = name[4:]         # Sub_OOBTree: a trivial user subclass
+        # Sub_OOBTree: a trivial user subclass; CL_OOBTree / CLeaf_OOBucket:
+        # a tree class that names its own leaf class, and that leaf class
+        name = name.split("_", 1)[1]
         ctx.probe("seam-subclass")
     elif name is None or not rec.get("mod", "").startswith("BTrees."):
         return
